@@ -3,6 +3,7 @@ CONSTANTS
   Ns = {1, 2, 3, 4, 5, 6, 7, 8, 9, 10, 11, 12, 13, 14, 15, 16, 17, 18, 19, 20}
   BigNs = {169, 170, 171, 172, 173, 200, 400, 1000}
   BigSamples = {3, 40, 160, 300}
+  HugeNs = {1400, 2000}
 INVARIANTS
   SelfCheck
   Emit
